@@ -255,7 +255,7 @@ def body_update_region(env):
 
 def instances(tier):
     inst = []
-    lays = ['one-a2', 'two-a2-a3', 'three-a2-a3-ur', 'three-a3-dd-u6', 'ring-no-centre'] + \
+    lays = ['one-a2', 'two-a2-a3', 'three-a2-a3-ur', 'three-a3-dd-u6', 'ring-no-centre', 'three-a3-b3-a2'] + \
         (['seven-mixed', 'six-hole'] if tier == 'thorough' else [])
     for l in lays:
         inst.append(dict(label='gap-step[%s]' % l, body=body_gap, params={'layout': l}, timeout_ms=240000))
